@@ -24,8 +24,8 @@ Definition all_codings : list coding := [Gzip; Deflate; Br; Zstd].
 Definition enc0 (k : coding) (lvl : Z) (x : bytes) : bytes := x.
 Definition dec0 (k : coding) (x : bytes) : bytes := x.
 
-(* the model needs a body only for its length: above both thresholds (minCompressLen, zstd_block) it is capped *)
-Definition zeros (l : Z) : bytes := repeat 0 (Z.to_nat (Z.min l 140000)).
+(* the model needs a body only for its length: above the threshold it uses (minCompressLen) it is capped *)
+Definition zeros (l : Z) : bytes := repeat 0 (Z.to_nat (Z.min l 4096)).
 Definition cap1 : Z := 2048.
 
 Definition mk_resp (ct pre_ce : bytes) (vary : list bytes) (streamed : bool) (chunks : list Z) : resp :=
@@ -37,7 +37,6 @@ Definition other_level (kind : N) (ol : Z) : Z := match kind with 2 => CompressD
 Definition sres_matches (s : sres) (o_err o_decoded : bool) : bool :=
   match s with
   | SErr => o_err
-  | SOk (WLossy _ _) => negb o_err      (* a race in the implementation: it may or may not decode *)
   | SOk w => negb o_err && Bool.eqb o_decoded (match decode dec0 w with Some _ => true | None => false end)
   end.
 
